@@ -6,13 +6,18 @@ from fractions import Fraction
 import numpy as np
 from scipy import integrate, special
 
-from common import L, ModelRaise, exc_kind
+import history
+from common import L, ModelRaise, exc_kind, read_shuffled
 
 RULE = ("Circle/Ellipse/Sphere/Ellipsoid with semi-axes log-uniform in 1e-3..1e3 (classes: generic, exact ties of 2 or 3 "
-        "axes, near-ties with relative gaps 1e-15..1e-3 incl. 1-ulp, needle/disc with aspect up to 1e6) in every "
-        "ordering (random permutation; all 6 orderings counted), centres with pairwise distinct |x|,|y|,|z| within 10 "
-        "diameters (plus a few origin / diagonal / integer centres); distinct = distinct (class, axes, centre); "
-        "non-trivial = positive axes accepted by the constructor")
+        "axes, near-ties with relative gaps 1e-15..1e-3 incl. 1-ulp, needle/disc with aspect 10..1e6, extreme needle/disc "
+        "with aspect 1e4..1e6) in every ordering (random permutation; all 6 orderings counted), centres with pairwise "
+        "distinct |x|,|y|,|z| within 10 diameters (plus origin / diagonal / integer centres and TINY centres on the scale "
+        "of the smallest semi-axis, where the small principal moments are not swamped by the parallel-axis term); a third "
+        "of the shapes is REACHED THROUGH A HISTORY (construct elsewhere, read everything, random valid / failing axis "
+        "assignments, centre assignments, reads, to_hoomd, size-setter rescalings, final assignments; some end with a "
+        "rescaling) and judged on the attributes read back from the object; getters are read in a shuffled order, twice; "
+        "distinct = distinct (class, axes, centre, history); non-trivial = positive axes accepted by the constructor")
 ASSUMPTIONS = [
     "area/volume/moments: exact integrals are the textbook centred moments + translation law of Spec/Curved.lean, "
     "evaluated exactly over Q in units of pi by the driver (p = 1) and multiplied by the double nearest pi",
@@ -23,13 +28,27 @@ ASSUMPTIONS = [
     "(CSpec.surfElement), the inner integral being a complete elliptic integral evaluated by the harness' AGM; every "
     "10th case with aspect <= 30 is cross-checked against a genuine 2-D quadrature (dblquad) of the area element",
     "accuracy clause: |impl - exact| <= 1e-9 * natural scale; the scale is the exact value itself for "
-    "area/volume/perimeter/surface/planar+polar moments, V*(max_axis^2+|c|^2) for the 3-D tensor; eccentricity near "
+    "area/volume/perimeter/surface/planar+polar moments; for EVERY ENTRY of the 3-D tensor it is |entry| + 1e-4 V |c|^2 "
+    "(the entry itself plus the conditioning of the unavoidable sum I0 + V(|c|^2 1 - c c^T), whose rounding is a few "
+    "ulp of V|c|^2), so the small principal moments of needles/discs are compared relative to themselves whenever the "
+    "centre does not swamp them; eccentricity near "
     "ties is compared with the conditioning-aware tolerance 1e-9 + 3e-16/max(e,1.5e-8) (sqrt(1-b^2/a^2) amplifies the "
     "rounding of b^2/a^2) and additionally on e^2 at 1e-9",
     "'at most 1' is checked as iq <= 1 + 1e-12 (rounding of 36 pi V^2/S^3 at a sphere); 'equal to 1 only for "
     "circle/sphere' is checked as iq < 1 whenever two axes differ by a relative gap >= 1e-4 (deficit ~ 3/8 gap^2)",
     "scipy.special.ellipe/ellipeinc/ellipkinc are parameters of the model; the arguments the implementation hands to "
-    "them are recorded (module attributes wrapped from outside) and compared with the model's arguments",
+    "them are recorded (module attributes wrapped from outside) and compared with the model's arguments; their "
+    "CONTRACTS (IsEllipe / IsEllipeinc / IsEllipkinc of the Lean theorems: Legendre's integrals) are checked per case at "
+    "those arguments against Carlson's R_F/R_D duplication evaluated in the Lean driver (c10.contract.*) and, on every "
+    "4th case, against adaptive quadrature of Legendre's integrand",
+    "Legendre certificate (hypothesis of C10.ellipsoid_iq_of_legendre: code's surface area = surface integral) is what "
+    "the surface quadrature checks per case; on spheroids it is a theorem and the closed forms (arsinh / arcsin) are "
+    "compared as well; the proved consequences S >= 4 pi/3 (ab+bc+ca) and iq <= 27 (abc)^2/(ab+bc+ca)^3 are checked "
+    "exactly (rational bounds) on every ellipsoid",
+    "shapes reached through setters: the final attributes are compared EXACTLY with the Lean state machine "
+    "(c10.history.run: last successful assignment wins, failed assignments / reads / to_hoomd change nothing; which "
+    "statements raise) when the history has modelled statements only; size-setter rescalings (C08's subject) are "
+    "unmodelled noise and the shape is then judged on the attributes it reports",
     "Shape2D.inertia_tensor = diag(0,0,J) is a library convention (in-plane rotation only): the oracle checks its zz "
     "entry against the polar integral and the other entries only through the model correspondence",
 ]
@@ -137,9 +156,77 @@ def fpi(x):
     return float(x) * PI
 
 
+# --------------------------------------------------------------------------- contracts of scipy.special
+
+
+def check_contract_complete(ctx, case, m, E_scipy, idx):
+    """IsEllipe (hypothesis of C10.perimeter_eq_arclength / ellipse_isoperimetric): scipy's ellipe(m) at the MODEL's
+    argument is Legendre's integral.  Evaluated per case by Carlson duplication in the Lean driver; every 4th case also
+    by adaptive quadrature of sqrt(1 - m sin^2 t)."""
+    _K, E_d = ctx.driver.F("c10.contract.complete", float(m))
+    ok = abs(E_scipy - E_d) <= 1e-12 * abs(E_d)
+    if ok and idx % 4 == 0:
+        with warnings.catch_warnings():
+            warnings.simplefilter("ignore", integrate.IntegrationWarning)
+            pts = [PI / 2.0 - p for p in _kink_points([math.sqrt(max(1.0 - m, 1e-300))], PI / 2.0)]
+            v, err = integrate.quad(lambda t: math.sqrt(max(1.0 - m * math.sin(t) ** 2, 0.0)), 0.0, PI / 2.0,
+                                    points=sorted(pts) or None, epsabs=0.0, epsrel=1e-13, limit=400)
+        ctx.count("contract:ellipe-quadrature")
+        ok = abs(E_scipy - v) <= 1e-10 * v + 10 * err
+    ctx.count("contract:ellipe-checked")
+    if not ok:
+        ctx.count("contract:ellipe-BROKEN")
+        ctx.contract_failures.append({"contract": "IsEllipe: scipy.special.ellipe(m) = int_0^{pi/2} sqrt(1 - m sin^2)",
+                                      "case": case, "got": [m, E_scipy, E_d]})
+
+
+def check_contract_incomplete(ctx, case, phi, m, F_scipy, E_scipy, idx):
+    """IsEllipeinc / IsEllipkinc (hypotheses of C10.spheroid_surface_area): scipy's ellipeinc / ellipkinc at the MODEL's
+    (phi, m) are Legendre's incomplete integrals.  Carlson duplication in the Lean driver per case; quadrature of both
+    integrands on every 4th well-conditioned case."""
+    F_d, E_d = ctx.driver.F("c10.contract.incomplete", float(phi), float(m))
+    # F is ill-conditioned in phi near pi/2 for m near 1 (dF/dphi = 1/sqrt(1 - m sin^2 phi))
+    amp = 1.0 / math.sqrt(max(1.0 - m * math.sin(phi) ** 2, 1e-300))
+    tolF = 1e-11 * abs(F_d) + 4e-16 * amp * max(phi, 1.0)
+    ok = abs(E_scipy - E_d) <= 1e-11 * abs(E_d) and abs(F_scipy - F_d) <= tolF
+    if ok and idx % 4 == 0 and amp <= 1e3:
+        with warnings.catch_warnings():
+            warnings.simplefilter("ignore", integrate.IntegrationWarning)
+            e, ee = integrate.quad(lambda t: math.sqrt(max(1.0 - m * math.sin(t) ** 2, 0.0)), 0.0, phi,
+                                   epsabs=0.0, epsrel=1e-13, limit=400)
+            f, fe = integrate.quad(lambda t: 1.0 / math.sqrt(max(1.0 - m * math.sin(t) ** 2, 1e-300)), 0.0, phi,
+                                   epsabs=0.0, epsrel=1e-13, limit=400)
+        ctx.count("contract:ellipeinc-ellipkinc-quadrature")
+        ok = abs(E_scipy - e) <= 1e-10 * e + 10 * ee and abs(F_scipy - f) <= 1e-10 * f + 10 * fe
+    ctx.count("contract:ellipeinc-ellipkinc-checked")
+    if not ok:
+        ctx.count("contract:ellipeinc-ellipkinc-BROKEN")
+        ctx.contract_failures.append({"contract": "IsEllipeinc/IsEllipkinc: scipy's incomplete integrals are Legendre's",
+                                      "case": case, "got": [phi, m, F_scipy, F_d, E_scipy, E_d]})
+
+
+def spheroid_closed_form(lo, mid, hi):
+    """surface of a spheroid from the closed forms PROVED equal to the surface integral
+    (C10.spheroid_surface_closed_form); None if the three axes are distinct."""
+    if lo == hi:
+        return 4.0 * PI * hi * hi
+    if mid == hi:       # oblate a = b > c
+        a, c = Fraction(hi), Fraction(lo)
+        k = math.sqrt(float(a * a - c * c))
+        return 2.0 * PI * (hi * hi + hi * lo * lo / k * math.asinh(k / lo))
+    if mid == lo:       # prolate a > b = c
+        a, c = Fraction(hi), Fraction(lo)
+        k = math.sqrt(float(a * a - c * c))
+        x = k / hi
+        ang = math.asin(x) if x < 0.7 else math.acos(lo / hi)
+        return 2.0 * PI * (lo * lo + hi * hi * lo / k * ang)
+    return None
+
+
 # --------------------------------------------------------------------------- generators
 
-AX_KINDS = ["generic", "generic", "tie2", "tie3", "near2", "near3", "near-mixed", "needle", "disc", "ulp"]
+AX_KINDS = ["generic", "generic", "tie2", "tie3", "near2", "near3", "near-mixed", "needle", "disc", "ulp",
+            "needle-extreme", "disc-extreme"]
 
 
 def _near(rng, x):
@@ -177,6 +264,23 @@ def gen_axes(rng, n, kind=None):
         big = float(10.0 ** rng.uniform(0, 3))
         small = float(10.0 ** rng.uniform(-3, math.log10(big) - 1))
         ax = [big * float(np.exp(rng.uniform(-0.3, 0.3))) for _ in range(n - 1)] + [small]
+    elif kind in ("needle-extreme", "disc-extreme"):
+        # aspect 1e4 .. 1e6 inside 1e-3..1e3 (both ends of the scale range at once)
+        big = float(10.0 ** rng.uniform(2, 3))
+        small = float(10.0 ** rng.uniform(-3, -2))
+        if kind == "needle-extreme":
+            ax = [big] + [small * float(np.exp(rng.uniform(-0.5, 0.5))) for _ in range(n - 1)]
+        else:
+            ax = [big * float(np.exp(rng.uniform(-0.5, 0.5))) for _ in range(n - 1)] + [small]
+        if rng.random() < 0.25:
+            ax[-1 if kind == "disc-extreme" else 0] = [1e-3, 1e3][kind == "needle-extreme"]
+        if n == 3 and rng.random() < 0.3:
+            # exact spheroid at extreme aspect: m = 1 (oblate) or m = 0 (prolate) with phi next to pi/2
+            if kind == "disc-extreme":
+                ax[1] = ax[0]
+            else:
+                ax[2] = ax[1]
+            kind += "-spheroid"
     elif kind == "ulp":
         k = int(rng.integers(1, 4))
         y = ax[0]
@@ -190,9 +294,19 @@ def gen_axes(rng, n, kind=None):
     return [ax[i] for i in perm], kind
 
 
-def gen_centre(rng, axes):
+def gen_centre(rng, axes, kind="generic"):
     diam = 2.0 * max(axes)
     r = rng.random()
+    p_tiny = 0.4 if kind.startswith(("needle", "disc")) else 0.1
+    if rng.random() < p_tiny:
+        # on the scale of the SMALLEST semi-axis: the parallel-axis term does not swamp the small principal moments
+        for _ in range(100):
+            d = rng.normal(size=3)
+            d /= np.linalg.norm(d)
+            c = d * float(rng.uniform(0.05, 2.0)) * min(axes)
+            ab = np.abs(c)
+            if min(abs(ab[0] - ab[1]), abs(ab[0] - ab[2]), abs(ab[1] - ab[2])) > 1e-3 * np.linalg.norm(c) > 0:
+                return [float(v) for v in c], "tiny"
     if r < 0.04:
         return [0.0, 0.0, 0.0], "origin"
     if r < 0.08:
@@ -217,20 +331,113 @@ def gen_centre(rng, axes):
     raise RuntimeError("centre generator")
 
 
+AXIS_NAMES = {"Circle": ["radius"], "Sphere": ["radius"], "Ellipse": ["a", "b"], "Ellipsoid": ["a", "b", "c"]}
+# size setters (C08's subject; unmodelled "noise" here) with the degree of the measure in the length scale
+SIZE_SETTERS = {
+    "Circle": {"area": 2, "perimeter": 1, "circumference": 1, "minimal_bounding_circle_radius": 1,
+               "minimal_centered_bounding_circle_radius": 1, "maximal_centered_bounded_circle_radius": 1},
+    "Ellipse": {"area": 2, "perimeter": 1, "circumference": 1, "minimal_bounding_circle_radius": 1,
+                "minimal_centered_bounding_circle_radius": 1, "maximal_bounded_circle_radius": 1,
+                "maximal_centered_bounded_circle_radius": 1},
+    "Sphere": {"volume": 3, "surface_area": 2, "diameter": 1, "minimal_bounding_sphere_radius": 1,
+               "minimal_centered_bounding_sphere_radius": 1, "maximal_bounded_sphere_radius": 1,
+               "maximal_centered_bounded_sphere_radius": 1},
+    "Ellipsoid": {"volume": 3, "surface_area": 2, "minimal_bounding_sphere_radius": 1,
+                  "minimal_centered_bounding_sphere_radius": 1, "maximal_bounded_sphere_radius": 1,
+                  "maximal_centered_bounded_sphere_radius": 1},
+}
+READABLE = {
+    "Circle": ["area", "perimeter", "circumference", "eccentricity", "iq", "planar_moments_inertia",
+               "polar_moment_inertia", "inertia_tensor"],
+    "Ellipse": ["area", "perimeter", "circumference", "eccentricity", "iq", "planar_moments_inertia",
+                "polar_moment_inertia", "inertia_tensor"],
+    "Sphere": ["volume", "surface_area", "diameter", "iq", "inertia_tensor"],
+    "Ellipsoid": ["volume", "surface_area", "iq", "inertia_tensor"],
+}
+
+
+def gen_history(rng, cls, axes, centre):
+    """a history that ends in the shape (axes, centre): statements are JSON lists
+         ["set", k, v]        shape.<axis k> = v            (v <= 0 / nan: raises ValueError, nothing changes)
+         ["cen", attr, q]     shape.centroid|center = q
+         ["read", names]      read the named getters ("all": every public property and the usual queries, history.warm)
+         ["hoomd"]            shape.to_hoomd()
+         ["size", name, k]    shape.<size setter> = (its current value) * k**degree   (a rescaling; unmodelled noise)
+    """
+    n = len(axes)
+    flat = cls in ("Circle", "Ellipse")
+    big = max(axes)
+
+    def other_centre():
+        q = [float(x + rng.uniform(-2, 2) * big) for x in centre]
+        if flat:
+            q[2] = float(centre[2])
+        return q
+
+    axes0 = [float(min(max(x * np.exp(rng.uniform(-1.5, 1.5)), 1e-3), 1e3)) for x in axes]
+    centre0 = other_centre()
+    if rng.random() < 0.25:
+        axes0, centre0 = list(axes), [float(v) for v in centre]     # starts AT the target, leaves it, comes back
+    steps = [["read", "all"]]
+    cur = list(axes0)          # None where a rescaling made the value approximate
+    curc = list(centre0)
+    noise = rng.random() < 0.35
+    for _ in range(int(rng.integers(0, 6))):
+        r = rng.random()
+        if r < 0.30:
+            k = int(rng.integers(n))
+            v = float(min(max(axes[k] * np.exp(rng.uniform(-1.5, 1.5)), 1e-3), 1e3))
+            steps.append(["set", k, v])
+            cur[k] = v
+        elif r < 0.42:
+            k = int(rng.integers(n))
+            v = [0.0, -float(axes[k]), -1e-3, float("nan")][int(rng.integers(4))]
+            steps.append(["set", k, v])                      # raises; nothing changes
+        elif r < 0.57:
+            curc = other_centre()
+            steps.append(["cen", ["centroid", "center"][int(rng.integers(2))], curc])
+        elif r < 0.77:
+            names = [READABLE[cls][i] for i in rng.permutation(len(READABLE[cls]))[:int(rng.integers(1, 4))]]
+            steps.append(["read", names])
+        elif r < 0.87 and not flat:
+            steps.append(["hoomd"])                          # (Circle / Ellipse have no to_hoomd)
+        elif noise:
+            names = sorted(SIZE_SETTERS[cls])
+            steps.append(["size", names[int(rng.integers(len(names)))], float(np.exp(rng.uniform(-0.4, 0.4)))])
+            cur = [None] * n
+    # final assignments of whatever is not at the target, shuffled, reads in between
+    todo = [k for k in range(n) if cur[k] is None or cur[k] != axes[k]]
+    if curc != [float(v) for v in centre]:
+        todo.append(n)
+    for k in [todo[i] for i in rng.permutation(len(todo))]:
+        if k < n:
+            steps.append(["set", k, float(axes[k])])
+        else:
+            steps.append(["cen", ["centroid", "center"][int(rng.integers(2))], [float(v) for v in centre]])
+        if rng.random() < 0.2:
+            steps.append(["read", [READABLE[cls][int(rng.integers(len(READABLE[cls])))]]])
+    ends = "assignment"
+    if noise and rng.random() < 0.4:
+        # the LAST mutation is a rescaling: the shape is judged on the attributes it then reports
+        names = sorted(SIZE_SETTERS[cls])
+        steps.append(["size", names[int(rng.integers(len(names)))], float(np.exp(rng.uniform(-0.3, 0.3)))])
+        ends = "rescale"
+    return {"axes0": axes0, "center0": centre0, "steps": steps, "ends": ends}
+
+
 def make_case(rng, cls, ctx):
     n = {"Circle": 1, "Sphere": 1, "Ellipse": 2, "Ellipsoid": 3}[cls]
     axes, kind = gen_axes(rng, n)
-    centre, ckind = gen_centre(rng, axes)
+    centre, ckind = gen_centre(rng, axes, kind)
     case = {"cls": cls, "axes": axes, "center": centre, "info": {"axes_kind": kind, "centre_kind": ckind}}
-    if rng.random() < 0.3:
-        # the same shape REACHED THROUGH ITS SETTERS: built with other axes and another centre, every public
-        # property read once (anything cached is now cached for the wrong shape), then each semi-axis / the radius and
-        # the centre assigned.  The property speaks about the shape with its current axes, however it got them.
-        case["via"] = {"axes0": [float(x * np.exp(rng.uniform(-1.5, 1.5))) for x in axes],
-                       "center0": [float(x + rng.uniform(-2, 2) * max(axes)) for x in centre[:2]] + [float(centre[2]) if cls in ("Circle", "Ellipse") else float(centre[2] + rng.uniform(-2, 2) * max(axes))],
-                       "order": [int(i) for i in rng.permutation(n + 1)],
-                       "centre_attr": ["centroid", "center"][int(rng.integers(2))]}
-        ctx.count("constructed:via-setters")
+    if rng.random() < 0.35:
+        # the same shape REACHED THROUGH A HISTORY.  The property speaks about the shape with its current axes, however
+        # it got them.
+        case["via"] = gen_history(rng, cls, axes, centre)
+        ctx.count("constructed:via-history")
+        ctx.count("history:ends-with-" + case["via"]["ends"])
+        if any(st[0] == "size" for st in case["via"]["steps"]):
+            ctx.count("history:with-rescaling")
     return case
 
 
@@ -260,26 +467,93 @@ class Recorder:
 
 
 def construct(case):
+    """build the shape of the case (directly, or through its history).  Returns (object, trace) where trace lists, per
+    statement of the history, the kind of exception it raised (None if none)."""
     import coxeter
-    import inspect
     cls = getattr(coxeter.shapes, case["cls"])
     via = case.get("via")
     if not via:
-        return cls(*case["axes"], center=case["center"])
+        return cls(*case["axes"], center=case["center"]), []
+    if "steps" not in via:
+        # replay of an older corpus case (lead's first `via` format)
+        steps = [["read", "all"]]
+        n = len(case["axes"])
+        for k in via["order"]:
+            steps.append(["set", k, case["axes"][k]] if k < n else ["cen", via["centre_attr"], case["center"]])
+        via = dict(via, steps=steps)
     s = cls(*via["axes0"], center=via["center0"])
-    for name, member in inspect.getmembers(cls):      # warm every cache on the OLD geometry
-        if not name.startswith("_") and isinstance(member, property):
-            try:
-                getattr(s, name)
-            except Exception:  # noqa: BLE001
-                pass
-    names = {"Circle": ["radius"], "Sphere": ["radius"], "Ellipse": ["a", "b"], "Ellipsoid": ["a", "b", "c"]}[case["cls"]]
-    for k in via["order"]:
-        if k < len(names):
-            setattr(s, names[k], case["axes"][k])
-        else:
-            setattr(s, via["centre_attr"], np.array(case["center"], dtype=float))
-    return s
+    names = AXIS_NAMES[case["cls"]]
+    trace = []
+    for st in via["steps"]:
+        try:
+            if st[0] == "set":
+                setattr(s, names[st[1]], st[2])
+            elif st[0] == "cen":
+                setattr(s, st[1], np.array(st[2], dtype=float))
+            elif st[0] == "read":
+                if st[1] == "all":
+                    history.warm(s)
+                else:
+                    for nm in st[1]:
+                        getattr(s, nm)
+            elif st[0] == "hoomd":
+                s.to_hoomd()
+            elif st[0] == "size":
+                deg = SIZE_SETTERS[case["cls"]][st[1]]
+                try:
+                    cur = float(getattr(s, st[1]))
+                except Exception:  # noqa: BLE001  (e.g. a bounded-circle getter that is not implemented: skip)
+                    trace.append("skipped")
+                    continue
+                setattr(s, st[1], cur * st[2] ** deg)
+            trace.append(None)
+        except Exception as e:  # noqa: BLE001
+            trace.append(exc_kind(e))
+    return s, trace
+
+
+def read_attrs(case, s):
+    """the attributes the object reports NOW: this is the shape the property speaks about"""
+    axes = [float(getattr(s, nm)) for nm in AXIS_NAMES[case["cls"]]]
+    cen = [float(v) for v in np.asarray(s.centroid, dtype=float).ravel()]
+    return axes, cen
+
+
+def check_history(ctx, case, s, trace, axes, cen):
+    """B for the attribute state machine.  Returns the case to judge (attributes read back)."""
+    via = case.get("via")
+    if not via:
+        if axes != [float(v) for v in case["axes"]] or cen != [float(v) for v in case["center"]]:
+            ctx.disagree("c10.history.run:constructor-attributes", case, [axes, cen])
+        return case
+    steps = via.get("steps")
+    modelled = steps is not None and not any(st[0] == "size" for st in steps)
+    if modelled:
+        enc = []
+        for st in steps:
+            if st[0] == "set":
+                enc.append([int(st[1]), float(st[2]), [0.0, 0.0, 0.0]])
+            elif st[0] == "cen":
+                enc.append([3, 0.0, [float(v) for v in st[2]]])
+            elif st[0] == "read":
+                enc.append([4, 0.0, [0.0, 0.0, 0.0]])
+            else:
+                enc.append([5, 0.0, [0.0, 0.0, 0.0]])
+        r = ctx.driver.F("c10.history.run", L([float(v) for v in via["axes0"]]), [float(v) for v in via["center0"]], L(enc))
+        n = len(axes)
+        m_axes, m_cen, m_raise = r[:3][:n], r[3:6], r[6:]
+        if m_axes != axes or m_cen != cen:
+            ctx.disagree("c10.history.run:final-attributes", case, {"impl": [axes, cen], "model": [m_axes, m_cen]})
+        if [t is not None for t in trace] != list(m_raise) or any(t not in (None, "ValueError") for t in trace):
+            ctx.disagree("c10.history.run:raises", case, {"impl": trace, "model": m_raise})
+        ctx.count("history:state-machine-compared")
+    if via.get("ends", "assignment") == "assignment":
+        # the history ends with assignments of the target: the object must report exactly the target
+        if axes != [float(v) for v in case["axes"]] or cen != [float(v) for v in case["center"]]:
+            ctx.disagree("c10.history.run:read-back", case, {"reported": [axes, cen]})
+    judged = dict(case)
+    judged["axes"], judged["center"] = axes, cen
+    return judged
 
 
 def rel_gap(x, y):
@@ -328,14 +602,45 @@ def check_planar(ctx, case, cls, obs, exact, exact0):
                  {"got": obs["inertia"][2, 2], "exact": fpi(J)})
 
 
-def observe2d(s):
-    pm = s.planar_moments_inertia
-    return {
-        "area": float(s.area), "ecc": s.eccentricity, "perimeter": float(s.perimeter),
-        "circumference": float(s.circumference), "planar": [float(v) for v in pm],
-        "polar": float(s.polar_moment_inertia), "inertia": np.array(s.inertia_tensor, dtype=float),
-        "iq": s.iq,
-    }
+def _same(x, y, scale):
+    x, y = np.asarray(x, dtype=float), np.asarray(y, dtype=float)
+    if not (np.all(np.isfinite(x)) and np.all(np.isfinite(y))):
+        return bool(np.array_equal(np.isnan(x), np.isnan(y)))
+    return bool(np.all(np.abs(x - y) <= 1e-9 * scale))
+
+
+def read_twice(ctx, case, cls, getters):
+    """read the getters in an order drawn per case, then once more in the reverse order: an answer must not depend on
+    what was asked before (a value cached by / for another query, a cache filled in a temporary frame)."""
+    first, order = read_shuffled(getters, [case["cls"], case["axes"], case["center"]])
+    ctx.count("first-query:" + order[0])
+    for nm in reversed(order):
+        again = getters[nm]()
+        try:
+            x, y = np.asarray(first[nm], dtype=float), np.asarray(again, dtype=float)
+        except (TypeError, ValueError):
+            continue
+        if not _same(x, y, float(np.max(np.abs(x))) if x.size and np.all(np.isfinite(x)) else 1.0):
+            ctx.fail("%s.%s:order-dependent" % (cls, nm), "the value reported depends on which other getters were read "
+                     "before", case, {"first": first[nm], "again": again, "order": order})
+    return first
+
+
+def observe2d(ctx, case, s):
+    g = {"area": lambda: float(s.area), "ecc": lambda: s.eccentricity, "perimeter": lambda: float(s.perimeter),
+         "circumference": lambda: float(s.circumference),
+         "planar": lambda: [float(v) for v in s.planar_moments_inertia],
+         "polar": lambda: float(s.polar_moment_inertia),
+         "inertia": lambda: np.array(s.inertia_tensor, dtype=float), "iq": lambda: s.iq}
+    return read_twice(ctx, case, case["cls"], g)
+
+
+def observe3d(ctx, case, s):
+    g = {"volume": lambda: float(s.volume), "surface": lambda: float(s.surface_area),
+         "inertia": lambda: np.array(s.inertia_tensor, dtype=float), "iq": lambda: s.iq}
+    if case["cls"] == "Sphere":
+        g["diameter"] = lambda: float(s.diameter)
+    return read_twice(ctx, case, case["cls"], g)
 
 
 def compare_2d_model(ctx, case, op, obs, r, ecc_tol):
@@ -361,10 +666,11 @@ def compare_2d_model(ctx, case, op, obs, r, ecc_tol):
 
 
 def eval_circle(ctx, case):
-    (r_,) = case["axes"]
-    cen = [float(v) for v in case["center"]]
-    s = construct(case)
-    obs = observe2d(s)
+    s, trace = construct(case)
+    axes, cen = read_attrs(case, s)
+    case = check_history(ctx, case, s, trace, axes, cen)
+    (r_,) = axes
+    obs = observe2d(ctx, case, s)
     # ---- B
     m = ctx.driver.F("c10.circle.all", r_, cen)
     compare_2d_model(ctx, case, "c10.circle.all", obs, m, 0.0)
@@ -396,13 +702,14 @@ def eval_circle(ctx, case):
     check_planar(ctx, case, "Circle", obs, q, q0)
 
 
-def eval_ellipse(ctx, case):
+def eval_ellipse(ctx, case, idx=0):
     import coxeter.shapes.ellipse as emod
-    a, b = case["axes"]
-    cen = [float(v) for v in case["center"]]
-    s = construct(case)
+    s, trace = construct(case)
+    axes, cen = read_attrs(case, s)
+    case = check_history(ctx, case, s, trace, axes, cen)
+    a, b = axes
     with Recorder(emod, "ellipe") as rec:
-        obs = observe2d(s)
+        obs = observe2d(ctx, case, s)
     hi, lo = max(a, b), min(a, b)
     e2_exact = 1 - Fraction(lo) ** 2 / Fraction(hi) ** 2
     e_exact = math.sqrt(float(e2_exact))
@@ -416,6 +723,7 @@ def eval_ellipse(ctx, case):
             ctx.disagree("c10.ellipse.args:ellipe-argument", case, [args, arg])
             break
     E = float(special.ellipe(arg))
+    check_contract_complete(ctx, case, arg, E, idx)
     m = ctx.driver.F("c10.ellipse.all", a, b, cen, E)
     compare_2d_model(ctx, case, "c10.ellipse.all", obs, m, ecc_tol)
     # ---- C
@@ -469,21 +777,30 @@ def check_inertia3(ctx, case, cls, obs, q, axes):
         part = "diagonal" if k // 3 == k % 3 else "off-diagonal"
         ctx.fail("%s.inertia_tensor:%s" % (cls, part), "inertia tensor about the origin differs from the integral of "
                  "|r|^2 1 - r r^T", case, {"got": obs["inertia"], "exact": I})
-    # small diagonal entries are also right relative to themselves when the centre is the origin
+    # EVERY ENTRY relative to itself plus the conditioning of the parallel-axis sum (a few ulp of V|c|^2): the small
+    # principal moments of needles / discs are not hidden behind the large ones
+    Vc2 = fpi(V) * float(c @ c)
+    tol = 1e-9 * np.abs(I) + 1e-13 * Vc2
+    bad = np.abs(obs["inertia"] - I) > tol
+    if np.any(bad) and np.all(np.isfinite(obs["inertia"])):
+        i, j = [int(v) for v in np.argwhere(bad)[0]]
+        ctx.fail("%s.inertia_tensor:entry-relative%s" % (cls, ":principal" if i == j else ":product"),
+                 "an entry of the inertia tensor differs from its integral by more than 1e-9 of the entry (plus the "
+                 "conditioning 1e-13 V|c|^2 of the parallel-axis sum)", case,
+                 {"entry": [i, j], "got": float(obs["inertia"][i, j]), "exact": float(I[i, j]),
+                  "rel": float(abs(obs["inertia"][i, j] - I[i, j]) / max(abs(I[i, j]), 1e-300))})
     if not np.any(c):
-        for k in range(3):
-            if not ctx.close_enough(obs["inertia"][k, k], I[k, k], I[k, k]):
-                ctx.fail("%s.inertia_tensor:centred" % cls, "centroidal principal moment differs from V/5 (b^2+c^2)",
-                         case, {"got": obs["inertia"], "exact": I})
-                break
+        ctx.count("inertia:centred")
+    elif Vc2 <= 1e3 * float(np.min(np.abs(np.diag(I)))):
+        ctx.count("inertia:small-moment-visible")
 
 
 def eval_sphere(ctx, case):
-    (r_,) = case["axes"]
-    cen = [float(v) for v in case["center"]]
-    s = construct(case)
-    obs = {"volume": float(s.volume), "surface": float(s.surface_area), "diameter": float(s.diameter),
-           "inertia": np.array(s.inertia_tensor, dtype=float), "iq": s.iq}
+    s, trace = construct(case)
+    axes, cen = read_attrs(case, s)
+    case = check_history(ctx, case, s, trace, axes, cen)
+    (r_,) = axes
+    obs = observe3d(ctx, case, s)
     # ---- B
     m = ctx.driver.F("c10.sphere.all", r_, cen)
     for k, nm in enumerate(["volume", "surface", "diameter"]):
@@ -513,12 +830,13 @@ def eval_sphere(ctx, case):
 
 def eval_ellipsoid(ctx, case, idx=0):
     import coxeter.shapes.ellipsoid as emod
-    a, b, c_ = case["axes"]
-    cen = [float(v) for v in case["center"]]
-    s = construct(case)
+    s, trace = construct(case)
+    axes, cen = read_attrs(case, s)
+    case = check_history(ctx, case, s, trace, axes, cen)
+    a, b, c_ = axes
     with Recorder(emod, "ellipeinc") as recE, Recorder(emod, "ellipkinc") as recK:
-        obs = {"volume": float(s.volume), "surface": float(s.surface_area),
-               "inertia": np.array(s.inertia_tensor, dtype=float), "iq": float(s.iq)}
+        obs = observe3d(ctx, case, s)
+        obs["iq"] = float(obs["iq"])
     lo, mid, hi = sorted([a, b, c_])
     # ---- B
     br, phi, mm, s_lo, s_mid, s_hi = ctx.driver.F("c10.ellipsoid.args", a, b, c_)
@@ -536,6 +854,7 @@ def eval_ellipsoid(ctx, case, idx=0):
                 break
         E = float(special.ellipeinc(phi, mm))
         K = float(special.ellipkinc(phi, mm))
+        check_contract_incomplete(ctx, case, phi, mm, K, E, idx)
     else:
         if recE.calls or recK.calls:
             ctx.disagree("c10.ellipsoid.args:unexpected-call", case, "implementation called elliptic integrals at a sphere")
@@ -583,6 +902,26 @@ def eval_ellipsoid(ctx, case, idx=0):
         if not ctx.close_enough(obs["iq"], iq_exact, 1.0):
             ctx.fail("Ellipsoid.iq:value", "iq differs from 36 pi V^2 / S^3 of the exact volume and surface", case,
                      [obs["iq"], iq_exact])
+    Scf = spheroid_closed_form(lo, mid, hi)
+    if Scf is not None:
+        ctx.count("oracle:spheroid-closed-form")
+        if not ctx.close_enough(obs["surface"], Scf, Scf):
+            ctx.fail("Ellipsoid.surface_area:spheroid-closed-form", "surface area of a spheroid differs from the closed "
+                     "form (arsinh / arcsin) proved equal to the surface integral", case, [obs["surface"], Scf])
+        if reliable and abs(S - Scf) > 1e-10 * Scf:
+            ctx.contract_failures.append({"contract": "oracle self-check: quadrature vs spheroid closed form",
+                                          "case": case, "got": [S, Scf]})
+    # proved consequences of 'surface area = surface integral' (C10.surfaceIntegral_facts / ellipsoid_isoperimetric),
+    # exact rational bounds in units of pi
+    fa, fb, fc = Fraction(a), Fraction(b), Fraction(c_)
+    sig = fa * fb + fb * fc + fc * fa
+    if not obs["surface"] >= fpi(Fraction(4, 3) * sig) * (1.0 - 1e-9):
+        ctx.fail("Ellipsoid.surface_area:lower-bound", "surface area below 4 pi/3 (ab+bc+ca), a lower bound of the surface "
+                 "integral", case, [obs["surface"], fpi(Fraction(4, 3) * sig)])
+    iq_bound = float(27 * (fa * fb * fc) ** 2 / sig ** 3)
+    if not obs["iq"] <= iq_bound * (1.0 + 6e-9):
+        ctx.fail("Ellipsoid.iq:isoperimetric-bound", "iq exceeds 27 (abc)^2/(ab+bc+ca)^3, an upper bound of 36 pi V^2/S^3 "
+                 "for the surface integral S", case, [obs["iq"], iq_bound])
     if not obs["iq"] <= 1.0 + 1e-12:
         ctx.fail("Ellipsoid.iq:at-most-1", "iq exceeds 1", case, obs["iq"])
     if rel_gap(hi, lo) >= 1e-4 and not obs["iq"] < 1.0:
@@ -604,8 +943,8 @@ def eval_case(ctx, case, idx=0):
     if case.get("invalid"):
         return eval_invalid(ctx, case)
     try:
-        if cls == "Ellipsoid":
-            eval_ellipsoid(ctx, case, idx)
+        if cls in ("Ellipsoid", "Ellipse"):
+            EVAL[cls](ctx, case, idx)
         else:
             EVAL[cls](ctx, case)
     except ModelRaise as e:
@@ -637,6 +976,32 @@ WITNESSES = [
     {"cls": "Sphere", "axes": [1.0], "center": [2, 3, 5], "info": {"axes_kind": "witness", "centre_kind": "integer"}},
     {"cls": "Ellipsoid", "axes": [3.0, 2.0, 1.0], "center": [2, 3, 5], "info": {"axes_kind": "witness", "centre_kind": "integer"}},
     {"cls": "Ellipsoid", "axes": [1.0, 2.0, 3.0], "center": [0, 0, 0], "info": {"axes_kind": "witness", "centre_kind": "origin"}},
+    # needle / disc limits at both ends of the scale range, every ordering, centre at the origin and on the scale of the
+    # smallest semi-axis (per-entry relative comparison of the principal moments)
+] + [
+    {"cls": "Ellipsoid", "axes": list(p), "center": [t * min(p) for t in uc],
+     "info": {"axes_kind": "witness-extreme", "centre_kind": "tiny" if any(uc) else "origin"}}
+    for base in ([1e3, 1e-3, 2e-3], [1e3, 1e-3, 1e-3], [1e3, 1e3, 1e-3], [800.0, 950.0, 2e-3], [600.0, 3e-3, 5e-3],
+                 [3.0, 1e-3, 1.5e-3])
+    for p in sorted(set(__import__("itertools").permutations(base)))
+    for uc in ([0.0, 0.0, 0.0], [0.3, -0.2, 0.5])
+] + [
+    {"cls": "Sphere", "axes": [r], "center": [0.3 * r, -0.2 * r, 0.5 * r],
+     "info": {"axes_kind": "witness-extreme", "centre_kind": "tiny"}} for r in (1e-3, 1e3)
+] + [
+    # a cached surface area / a stale value after assigning ONE axis (history of the minimal kind)
+    {"cls": "Ellipsoid", "axes": [2.0, 3.0, 2.0], "center": [0.0, 0.0, 0.0],
+     "info": {"axes_kind": "witness-history", "centre_kind": "origin"},
+     "via": {"axes0": [2.0, 2.0, 2.0], "center0": [0.0, 0.0, 0.0], "ends": "assignment",
+             "steps": [["read", ["surface_area"]], ["set", 1, 3.0]]}},
+    {"cls": "Ellipse", "axes": [2.0, 0.5], "center": [1.0, 2.0, 0.0],
+     "info": {"axes_kind": "witness-history", "centre_kind": "integer"},
+     "via": {"axes0": [2.0, 2.0], "center0": [1.0, 2.0, 0.0], "ends": "assignment",
+             "steps": [["read", ["perimeter", "iq"]], ["set", 1, -1.0], ["set", 1, 0.5]]}},
+    {"cls": "Ellipsoid", "axes": [1.0, 2.0, 3.0], "center": [0.5, -0.25, 2.0],
+     "info": {"axes_kind": "witness-history", "centre_kind": "distinct"},
+     "via": {"axes0": [1.0, 2.0, 3.0], "center0": [0.5, -0.25, 2.0], "ends": "rescale",
+             "steps": [["read", "all"], ["set", 0, 4.0], ["read", ["iq"]], ["set", 0, 1.0], ["size", "volume", 1.5]]}},
     # witness of the nan finding (two larger axes 1 ulp apart)
     {"cls": "Ellipsoid", "axes": [82.98250839490515, 318.4597855508135, 318.4597855508136], "center": [1, 2, 3],
      "info": {"axes_kind": "witness-ulp-oblate", "centre_kind": "integer"}},
@@ -653,7 +1018,7 @@ INVALID = [
 
 
 def run(ctx):
-    n = ctx.budget(2500, 40000)
+    n = ctx.budget(2000, 36000)
     for case in WITNESSES:
         ctx.count("kind:witness")
         ctx.case(case)
